@@ -2,6 +2,7 @@ import CfbVerif.Drv.Handle
 import CfbVerif.Drv.Names
 import CfbVerif.Drv.Time
 import CfbVerif.Drv.Api
+import CfbVerif.Drv.Raw
 
 def main (args : List String) : IO UInt32 := do
   match args with
@@ -9,4 +10,5 @@ def main (args : List String) : IO UInt32 := do
   | ["names"] => CfbVerif.Drv.Names.main; return 0
   | ["time"] => CfbVerif.Drv.Time.main; return 0
   | ["api"] => CfbVerif.Drv.Api.main; return 0
+  | ["raw"] => CfbVerif.Drv.Raw.main; return 0
   | _ => IO.eprintln "usage: driver <handle|...>"; return 2
